@@ -264,7 +264,7 @@ theorem simplify_sstep (o : Opts) (e : Expr) (he : WF e) (hq : Plain e) (hopt : 
     apply SPost_bind; intro t' ht'
     obtain ⟨htw, hts⟩ := wih.simplify o t ht t' ht'
     obtain ⟨htq, htv⟩ := ih.simplify o t ht hqt hopt t' ht'
-    rw [hopt.1, Plain_isDef htq]
+    rw [show o.widening = false from hopt, Plain_isDef htq]
     simp only [Bool.not_true, Bool.or_self, Bool.false_eq_true, if_false]
     have ht2 : ideal ρ t' < 2 := by
       have := ideal_lt ρ t' htw; rw [hts, ht1] at this; simpa using this
